@@ -176,7 +176,7 @@ fn search_parallel(args: &HiArgs, mode: SearchMode) -> anyhow::Result<bool> {
     let searched = AtomicBool::new(false);
     let broken_pipe = AtomicBool::new(false);
 
-    let mut searcher = args.search_worker(
+    let searcher = args.search_worker(
         args.matcher()?,
         args.searcher()?,
         args.printer(mode, bufwtr.buffer()),
@@ -246,9 +246,12 @@ fn search_parallel(args: &HiArgs, mode: SearchMode) -> anyhow::Result<bool> {
     }
     if let Some(ref locked_stats) = stats {
         let stats = locked_stats.lock().unwrap();
-        let mut wtr = searcher.printer().get_mut();
+        // The statistics are not a file's results: write them straight to
+        // stdout (as the single-threaded search does), not through the
+        // buffer writer, which would put a file separator in front of them.
+        let mut wtr = args.stdout();
         let _ = print_stats(mode, &stats, started_at, &mut wtr);
-        let _ = bufwtr.print(&mut wtr);
+        let _ = wtr.flush();
     }
     Ok(matched.load(Ordering::SeqCst))
 }
